@@ -2,9 +2,7 @@
    Statement, closing [exact]s, non-vacuity examples and Print Assumptions only; proofs are in
    lemmas/BuilderFrames.v and lemmas/BuilderLemmas.v, the model in Builder.v (parametric in the term type),
    the get_sql clause table in gen/C08Table.v (re-extracted from pypika/queries.py on every run). *)
-From PV Require Import Base Builder BuilderCorr lemmas.BuilderFrames.
-From PV Require Import lemmas.BuilderLemmas.
-From PV Require Import gen.C08Table.
+From PV Require Import Base Builder BuilderCorr lemmas.BuilderFrames lemmas.BuilderLemmas gen.C08Table.
 Local Open Scope list_scope.
 
 (* (1) any interleaving of clause-adding calls that keeps the relative order of the calls of each kind succeeds
@@ -12,12 +10,12 @@ Local Open Scope list_scope.
    that sees _foreign_table only through with_namespace, as get_sql does).  For every term type and every
    choice of the term observations, every start state, every two lists. *)
 Definition C08_interleavings (on_fragment : bool) : Prop :=
-  forall (term : Type) ft and_ ie fo wi st iss selt mkr ra (s0 : qstate term) (l1 l2 : list (call term)),
+  forall (term : Type) ft fnd and_ ie fo wi st iss selt mkr ra (s0 : qstate term) (l1 l2 : list (call term)),
     all_commuting term l1 = true ->
-    (if on_fragment then fragment term ft l1 else True) ->
+    (if on_fragment then fragment term fnd l1 else True) ->
     same_kind_order term l1 l2 ->
-    forall q1, run term ft and_ ie fo wi st iss selt mkr ra s0 l1 = Ok q1 ->
-    exists q2, run term ft and_ ie fo wi st iss selt mkr ra s0 l2 = Ok q2
+    forall q1, run term ft fnd and_ ie fo wi st iss selt mkr ra s0 l1 = Ok q1 ->
+    exists q2, run term ft fnd and_ ie fo wi st iss selt mkr ra s0 l2 = Ok q2
                /\ equiv term q1 q2
                /\ (forall T (R : bool -> qstate term -> T), render term R q1 = render term R q2).
 
@@ -25,8 +23,8 @@ Definition C08_interleavings (on_fragment : bool) : Prop :=
    WITH / index hints / SET pairs / VALUES rows / ORDER BY terms by appending -- whatever other calls are
    interleaved *)
 Definition C08_accumulate : Prop :=
-  forall (term : Type) ft and_ ie fo wi st iss selt mkr ra (s0 q : qstate term) (l : list (call term)),
-    run term ft and_ ie fo wi st iss selt mkr ra s0 l = Ok q ->
+  forall (term : Type) ft fnd and_ ie fo wi st iss selt mkr ra (s0 q : qstate term) (l : list (call term)),
+    run term ft fnd and_ ie fo wi st iss selt mkr ra s0 l = Ok q ->
     q_wheres term q = fold_left (acc_wheres term and_ ie) l (q_wheres term s0)
     /\ q_prewheres term q = fold_left (acc_prewheres term and_) l (q_prewheres term s0)
     /\ q_havings term q = fold_left (acc_havings term and_ ie) l (q_havings term s0)
@@ -55,8 +53,8 @@ Definition C08_full_statement : Prop :=
 
 (* ---- the full statement is false: JoinOn.validate reads _with at call time ------------------------------- *)
 Definition w_s0 : cstate := match crun (init cterm) [CFrom _ (Tab "a" None) 0%Z] with Ok s => s | Err _ => init cterm end.
-Definition w_crit : cterm := CArg "#w.x==v.x" [Some (Tab "v" None); Some (Wq "w")] None false false.
-Definition w_with : ccall := CWith _ "w" (CArg "#sub" [] None false false).
+Definition w_crit : cterm := CArg "#w.x==v.x" [Some (Tab "v" None); Some (Wq "w")] [Some (Wq "w"); Some (Tab "v" None)] None false false.
+Definition w_with : ccall := CWith _ "w" (CArg "#sub" [] [] None false false).
 Definition w_join : ccall := CJoin _ (Tab "v" None) "inner" (JSOn _ w_crit None).
 Definition w_select : ccall := CSelect _ [SStr _ "x"].
 
@@ -67,7 +65,7 @@ Proof.
     by (intro k; destruct k; reflexivity).
   assert (Hr : exists q1, crun w_s0 [w_with; w_join; w_select] = Ok q1) by (vm_compute; eexists; reflexivity).
   destruct Hr as [q1 Hr].
-  destruct (H cterm c_fields_tables c_and c_is_empty CFieldOf CInt CStar c_is_star c_sel_table CRollupT c_rollup_args
+  destruct (H cterm c_fields_tables c_find_tables c_and c_is_empty CFieldOf CInt CStar c_is_star c_sel_table CRollupT c_rollup_args
               w_s0 [w_with; w_join; w_select] [w_join; w_with; w_select] eq_refl I Hk q1 Hr) as [q2 [H2 _]].
   vm_compute in H2. discriminate.
 Qed.
@@ -77,7 +75,7 @@ Print Assumptions C08_refuted.
 Example C08_witness :
   (exists q, crun w_s0 [w_with; w_join; w_select] = Ok q)
   /\ crun w_s0 [w_join; w_with; w_select] = Err "JoinException"
-  /\ fragmentb cterm c_fields_tables [w_with; w_join; w_select] = false.
+  /\ fragmentb cterm c_find_tables [w_with; w_join; w_select] = false.
 Proof. split; [vm_compute; eexists; reflexivity|]. split; vm_compute; reflexivity. Qed.
 Print Assumptions C08_witness.
 
@@ -85,11 +83,11 @@ Print Assumptions C08_witness.
 Theorem C08_on_fragment : C08_interleavings true /\ C08_accumulate /\ C08_clause_order.
 Proof.
   split; [|split].
-  - intros term ft and_ ie fo wi st iss selt mkr ra s0 l1 l2 Hc Hf Hk q1 Hr.
-    destruct (interleaving_commutes term ft and_ ie fo wi st iss selt mkr ra s0 l1 l2 Hc Hf Hk q1 Hr) as [q2 [H2 E]].
+  - intros term ft fnd and_ ie fo wi st iss selt mkr ra s0 l1 l2 Hc Hf Hk q1 Hr.
+    destruct (interleaving_commutes term ft fnd and_ ie fo wi st iss selt mkr ra s0 l1 l2 Hc Hf Hk q1 Hr) as [q2 [H2 E]].
     exists q2. split; [exact H2|]. split; [exact E|].
     intros T R. apply render_equiv. exact E.
-  - intros term ft and_ ie fo wi st iss selt mkr ra s0 q l H.
+  - intros term ft fnd and_ ie fo wi st iss selt mkr ra s0 q l H.
     split; [eapply wheres_accumulate; eauto|]. split; [eapply prewheres_accumulate; eauto|].
     split; [eapply havings_accumulate; eauto|]. split; [eapply with_accumulate; eauto|].
     split; [eapply force_accumulate; eauto|]. split; [eapply use_accumulate; eauto|].
@@ -100,16 +98,16 @@ Qed.
 Print Assumptions C08_on_fragment.
 
 (* the parts of the argument, under their own names *)
-Theorem C08_step_writes : forall term ft and_ ie fo wi st iss selt mkr ra c s s',
-  step term ft and_ ie fo wi st iss selt mkr ra s c = Ok s' ->
+Theorem C08_step_writes : forall term ft fnd and_ ie fo wi st iss selt mkr ra c s s',
+  step term ft fnd and_ ie fo wi st iss selt mkr ra s c = Ok s' ->
   forall x, smem x (writes (kind_of term c)) = false -> eq_on term x s s'.
 Proof. exact step_writes. Qed.
 Print Assumptions C08_step_writes.
 
-Theorem C08_step_reads : forall term ft and_ ie fo wi st iss selt mkr ra c s1 s2,
+Theorem C08_step_reads : forall term ft fnd and_ ie fo wi st iss selt mkr ra c s1 s2,
   (forall x, smem x (deps (kind_of term c)) = true -> eq_on term x s1 s2) ->
-  agree_out term (kind_of term c) (step term ft and_ ie fo wi st iss selt mkr ra s1 c)
-            (step term ft and_ ie fo wi st iss selt mkr ra s2 c).
+  agree_out term (kind_of term c) (step term ft fnd and_ ie fo wi st iss selt mkr ra s1 c)
+            (step term ft fnd and_ ie fo wi st iss selt mkr ra s2 c).
 Proof. exact step_reads. Qed.
 Print Assumptions C08_step_reads.
 
@@ -117,20 +115,20 @@ Theorem C08_footprints : footprint_table = true.
 Proof. exact footprint_table_ok. Qed.
 Print Assumptions C08_footprints.
 
-Theorem C08_swap_adjacent : forall term ft and_ ie fo wi st iss selt mkr ra s c1 c2 a b,
+Theorem C08_swap_adjacent : forall term ft fnd and_ ie fo wi st iss selt mkr ra s c1 c2 a b,
   commuting (kind_of term c1) = true -> commuting (kind_of term c2) = true ->
   kind_eqb (kind_of term c1) (kind_of term c2) = false ->
-  compat term ft c1 c2 = true -> compat term ft c2 c1 = true ->
-  step term ft and_ ie fo wi st iss selt mkr ra s c1 = Ok a -> step term ft and_ ie fo wi st iss selt mkr ra a c2 = Ok b ->
-  exists a' b', step term ft and_ ie fo wi st iss selt mkr ra s c2 = Ok a'
-                /\ step term ft and_ ie fo wi st iss selt mkr ra a' c1 = Ok b' /\ equiv term b b'.
+  compat term fnd c1 c2 = true -> compat term fnd c2 c1 = true ->
+  step term ft fnd and_ ie fo wi st iss selt mkr ra s c1 = Ok a -> step term ft fnd and_ ie fo wi st iss selt mkr ra a c2 = Ok b ->
+  exists a' b', step term ft fnd and_ ie fo wi st iss selt mkr ra s c2 = Ok a'
+                /\ step term ft fnd and_ ie fo wi st iss selt mkr ra a' c1 = Ok b' /\ equiv term b b'.
 Proof. exact swap_adjacent. Qed.
 Print Assumptions C08_swap_adjacent.
 
 (* ---- non-vacuity: a SELECT with calls of nine kinds, two interleavings, one state ------------------------- *)
 Definition ex_t : tbl := Tab "t" None.
 Definition ex_u : tbl := Tab "u" None.
-Definition ex_arg (txt : string) (tabs : list (option tbl)) : cterm := CArg txt tabs None false false.
+Definition ex_arg (txt : string) (tabs : list (option tbl)) : cterm := CArg txt tabs tabs None false false.
 Definition ex_calls : list ccall :=
   [ CWhere _ (ex_arg "#u.x=1" [Some ex_u]);
     CSelect _ [SStr _ "a"; SOther _ (ex_arg "#count" [])];
@@ -150,7 +148,7 @@ Definition ex_s0 : cstate := match crun (init cterm) [CFrom _ ex_t 0%Z] with Ok 
 
 Example C08_example :
   all_commuting cterm ex_calls = true
-  /\ fragmentb cterm c_fields_tables ex_calls = true
+  /\ fragmentb cterm c_find_tables ex_calls = true
   /\ (forall k, kfilter cterm k ex_calls = kfilter cterm k (pick ex_calls ex_perm))
   /\ (exists q1 q2, crun ex_s0 ex_calls = Ok q1 /\ crun ex_s0 (pick ex_calls ex_perm) = Ok q2
         /\ q_foreign_table _ q1 = true /\ q_foreign_table _ q2 = false     (* the call-time flag differs ... *)
